@@ -396,6 +396,11 @@ def worker(run, job):
 
 def check(run, replay=None):
     if replay:
+        c = json.load(open(replay))
+        if c.get('cmd') in ('searchcmp', 'searchmates'):
+            run.build()
+            from . import searchreplay
+            return searchreplay.replay_file(run, c)
         print('C11 counterexamples are assignments of abstract node facts; see the replay file')
         return 1
     run.build()
@@ -419,3 +424,5 @@ def check(run, replay=None):
                   'killer table and statistics arbitrary', 'capture-only list modelled as the full list with non-captures rejected by the legality answer',
                   'transposition-table probe returns None (cache off)', 'clock: fresh non-decreasing values < 2^64', 'scores in exact integer mode'}
     run.parallel(worker, jobs)
+    from . import searchreplay
+    searchreplay.confirm_on_real_engine(run, 'cmp')
